@@ -47,6 +47,39 @@ type c06Bind struct {
 	secret   bool   // watches Secrets (the kind the harness creates while the operator starts)
 	label    string // "": no label selector; else the binding selects c06fault=<label> (unique per binding: the
 	// fault injector recognises the binding's LIST calls by it; no object carries the label)
+	// option keys of a v1 binding that the property does not mention: whatever they are set to, the
+	// Synchronization comes first (letters of the hook line's opts= token in brackets)
+	waitSync int      // waitForSynchronization: 0 absent, 1 false [w], 2 true [W]
+	keepFull bool     // keepFullObjectsInMemory: false [k]
+	jq       bool     // jqFilter [j]
+	onEvent  int      // 0 absent, 1 executeHookOnEvent: [Added] [a], 2 watchEvent: [Added, Modified] [m]
+	snapFrom []string // includeSnapshotsFrom [i]
+}
+
+func (b *c06Bind) opts() string {
+	o := ""
+	switch b.waitSync {
+	case 1:
+		o += "w"
+	case 2:
+		o += "W"
+	}
+	if b.keepFull {
+		o += "k"
+	}
+	if b.jq {
+		o += "j"
+	}
+	switch b.onEvent {
+	case 1:
+		o += "a"
+	case 2:
+		o += "m"
+	}
+	if len(b.snapFrom) > 0 {
+		o += "i"
+	}
+	return o
 }
 
 type c06Hook struct {
@@ -93,6 +126,27 @@ func (h *c06Hook) config(ns string) string {
 				}
 				if b.label != "" {
 					k["labelSelector"] = map[string]any{"matchLabels": map[string]string{"c06fault": b.label}}
+				}
+				switch b.waitSync {
+				case 1:
+					k["waitForSynchronization"] = false
+				case 2:
+					k["waitForSynchronization"] = true
+				}
+				if b.keepFull {
+					k["keepFullObjectsInMemory"] = false
+				}
+				if b.jq {
+					k["jqFilter"] = ".metadata.name"
+				}
+				switch b.onEvent {
+				case 1:
+					k["executeHookOnEvent"] = []string{"Added"}
+				case 2:
+					k["watchEvent"] = []string{"Added", "Modified"}
+				}
+				if len(b.snapFrom) > 0 {
+					k["includeSnapshotsFrom"] = b.snapFrom
 				}
 				ks = append(ks, k)
 			} else {
@@ -239,7 +293,50 @@ func c06GenHooks(rng *Rng, nHooks int, allowEvents bool) []*c06Hook {
 		h.id = i + 1
 	}
 	c06LabelFaultBindings(hooks)
+	c06OptionKeys(rng, hooks)
 	return hooks
+}
+
+// c06OptionKeys sets, for the bindings of v1 hooks, the legal configuration keys the property does not talk about
+// (its quantifier: any mix of ... synchronization flags per hook): waitForSynchronization (false mostly where the
+// configuration keeps it — on a binding with a named queue —, sometimes on a main-queue binding, sometimes an
+// explicit true), keepFullObjectsInMemory, jqFilter, executeHookOnEvent / watchEvent (always including Added, so the
+// Secrets created during the start still produce Events), includeSnapshotsFrom (names of bindings of the same
+// hook). None of them may change what is executed at start or let an Event overtake its Synchronization.
+func c06OptionKeys(rng *Rng, hooks []*c06Hook) {
+	for _, h := range hooks {
+		if !h.v1 || len(h.kube) == 0 || rng.Chance(25) {
+			continue
+		}
+		for i := range h.kube {
+			b := &h.kube[i]
+			switch {
+			case b.queue != "" && rng.Chance(55):
+				b.waitSync = 1
+			case b.queue == "" && rng.Chance(15):
+				b.waitSync = 1
+			case rng.Chance(10):
+				b.waitSync = 2
+			}
+			b.keepFull = rng.Chance(20)
+			b.jq = rng.Chance(20)
+			if rng.Chance(20) {
+				b.onEvent = rng.Range(1, 2)
+			}
+			if rng.Chance(15) {
+				for k := rng.Range(1, 2); k > 0; k-- {
+					n := h.kube[rng.Intn(len(h.kube))].name
+					dup := false
+					for _, x := range b.snapFrom {
+						dup = dup || x == n
+					}
+					if !dup {
+						b.snapFrom = append(b.snapFrom, n)
+					}
+				}
+			}
+		}
+	}
 }
 
 // c06SplitBindings generates the binding list of a v1 hook whose Synchronizations are spread over several
@@ -421,7 +518,13 @@ func c06HookLine(h *c06Hook) string {
 	if h.sched {
 		s = 1
 	}
-	return fmt.Sprintf("hook %d v=%d os=%s sched=%d fails=%s kube=%s kfail=%s", h.id, v, os_, s, fl, joinStrs(ks), joinInts(h.kfail))
+	var opt []string
+	for _, b := range h.kube {
+		if o := b.opts(); o != "" && h.v1 {
+			opt = append(opt, strings.TrimPrefix(b.name, "b")+":"+o)
+		}
+	}
+	return fmt.Sprintf("hook %d v=%d os=%s sched=%d fails=%s kube=%s kfail=%s opts=%s", h.id, v, os_, s, fl, joinStrs(ks), joinInts(h.kfail), joinStrs(opt))
 }
 
 type c06Exec struct {
@@ -873,6 +976,26 @@ func c06Classify(c *Case, hooks []*c06Hook) {
 			break
 		}
 	}
+	optKeys, noWait := false, false
+	for _, h := range hooks {
+		for i, b := range h.kube {
+			if !h.v1 {
+				continue
+			}
+			optKeys = optKeys || b.opts() != ""
+			// the configuration keeps waitForSynchronization=false (named queue), the binding gets Events during the
+			// start and its Synchronization is not the hook's first startup execution or is scripted to fail
+			if b.waitSync == 1 && b.queue != "" && b.secret && b.execSync && b.group == 0 && (i > 0 || h.order != nil || len(h.fails) > 0) {
+				noWait = true
+			}
+		}
+	}
+	if optKeys {
+		c.Note("binding-option-keys")
+	}
+	if noWait {
+		c.Note("waitForSynchronization=false-on-a-named-queue-with-events")
+	}
 	c.Nontrivial = n >= 2 && (mx >= 2 || grouped > 0 || skipped > 0 || fails > 0 || kfails > 0)
 }
 
@@ -959,7 +1082,7 @@ func c06OrderOnly(r *Run, c *Case, rng *Rng, n int) {
 }
 
 func runC06(r *Run) {
-	r.Rule = "whole-operator starts: generated hook directories (1-25 bash hooks in nested paths, ORDER values drawn from a small pool so that many are equal, 30% of the cases one single ORDER; 0-4 kubernetes bindings per hook with groups g1/g2, queues, executeHookOnSynchronization true/false, v0 and v1 configs, every-second schedules, scripted exit codes for the first 1-3 startup executions of a hook; for 30% of the hooks with kubernetes bindings a fault sequence of the enabling itself: the EnableKubernetesBindings task fails 1-3 times, each time because the API server fails the initial LIST of one chosen binding's monitor — mostly not the first one — injected by a reactor of the fake dynamic client that recognises the binding by its own label selector) run by a real ShellOperator over kube-client/fake (ConfigMaps/Secrets present, Secrets created while the main queue runs for ungrouped bindings of other queues and for v0 bindings; 30% of the v1 hooks with kubernetes bindings in such a case get a SPLIT binding list of up to 7 bindings whose Synchronizations are spread over several executions — runs that are combined into one execution (grouped head, followers of the same/another group or ungrouped), each followed by a binding with the flag false that stops the combination, and ungrouped Secret-watching bindings of other queues that are synchronised late by executions of their own, with a failure script of 2-6 entries reaching those late executions); back-off shortened through the public queue fields. Observation: GetHooksInOrder(OnStartup), the bootstrapped main queue, the global execution log written by the hooks (v0 binding contexts have no type: one of a kubernetes binding without a watch event counts as a Synchronization), the faults that were injected. Thorough adds the exhaustive scope of one v1 hook with every list of 1-3 bindings over {no group, g1, g2} x {flag true, false} (258 starts). Plus order-only cases: hook.Manager with 13-200 onStartup hooks, GetHooksInOrder compared directly. Non-trivial: >= 2 hooks and (equal ORDER values, or grouped bindings, or a binding with executeHookOnSynchronization=false, or scripted failures); distinct = distinct hook-line sequences."
+	r.Rule = "whole-operator starts: generated hook directories (1-25 bash hooks in nested paths, ORDER values drawn from a small pool so that many are equal, 30% of the cases one single ORDER; 0-4 kubernetes bindings per hook with groups g1/g2, queues, executeHookOnSynchronization true/false, and for 75% of the v1 hooks the option keys the property does not mention — waitForSynchronization false (55% of the bindings with a named queue, where the configuration keeps it, 15% of the main-queue ones) or an explicit true, keepFullObjectsInMemory=false, jqFilter, executeHookOnEvent/watchEvent, includeSnapshotsFrom —, v0 and v1 configs, every-second schedules, scripted exit codes for the first 1-3 startup executions of a hook; for 30% of the hooks with kubernetes bindings a fault sequence of the enabling itself: the EnableKubernetesBindings task fails 1-3 times, each time because the API server fails the initial LIST of one chosen binding's monitor — mostly not the first one — injected by a reactor of the fake dynamic client that recognises the binding by its own label selector) run by a real ShellOperator over kube-client/fake (ConfigMaps/Secrets present, Secrets created while the main queue runs for ungrouped bindings of other queues and for v0 bindings; 30% of the v1 hooks with kubernetes bindings in such a case get a SPLIT binding list of up to 7 bindings whose Synchronizations are spread over several executions — runs that are combined into one execution (grouped head, followers of the same/another group or ungrouped), each followed by a binding with the flag false that stops the combination, and ungrouped Secret-watching bindings of other queues that are synchronised late by executions of their own, with a failure script of 2-6 entries reaching those late executions); back-off shortened through the public queue fields. Observation: GetHooksInOrder(OnStartup), the bootstrapped main queue, the global execution log written by the hooks (v0 binding contexts have no type: one of a kubernetes binding without a watch event counts as a Synchronization), the faults that were injected. Thorough adds the exhaustive scope of one v1 hook with every list of 1-3 bindings over {no group, g1, g2} x {flag true, false} (258 starts). Plus order-only cases: hook.Manager with 13-200 onStartup hooks, GetHooksInOrder compared directly. Non-trivial: >= 2 hooks and (equal ORDER values, or grouped bindings, or a binding with executeHookOnSynchronization=false, or scripted failures); distinct = distinct hook-line sequences."
 	r.CaseTimeout = 120 * time.Second
 	ip := func(i int) *int { return &i }
 	mk := func(hs ...*c06Hook) []*c06Hook {
@@ -1033,6 +1156,23 @@ func runC06(r *Run) {
 			&c06Hook{path: "b.sh", v1: true, fails: []bool{true, false, true}, kube: []c06Bind{
 				{name: "b1", group: 2, execSync: true, queue: "q2"}, {name: "b2", execSync: true, queue: "q2", secret: true}, {name: "b3", group: 1, execSync: false},
 				{name: "b4", execSync: true, queue: "q3", secret: true}, {name: "b5", execSync: true, queue: "q1", secret: true}}},
+		)
+		c06Classify(c, hs)
+		c.Nontrivial = true
+		c06Run(r, c, rng, hs, true)
+	})
+	r.One(6, func(c *Case, rng *Rng) {
+		c.Desc = "corpus: option keys the property does not mention — Secret-watching bindings of named queues with waitForSynchronization=false (kept by the configuration), keepFullObjectsInMemory=false, jqFilter, executeHookOnEvent, includeSnapshotsFrom, behind a main-queue binding whose Synchronization fails twice, and with failing Synchronizations of their own; Secrets are created meanwhile"
+		hs := mk(
+			&c06Hook{path: "a.sh", v1: true, order: ip(1), fails: []bool{false, true, true, false, true}, kube: []c06Bind{
+				{name: "b1", execSync: true, waitSync: 1},
+				{name: "b2", execSync: true, queue: "q1", secret: true, waitSync: 1},
+				{name: "b3", execSync: true, queue: "q2", secret: true, waitSync: 1, keepFull: true, jq: true, onEvent: 1, snapFrom: []string{"b1"}}}},
+			&c06Hook{path: "b.sh", v1: true, fails: []bool{true, false, true}, sched: true, kube: []c06Bind{
+				{name: "b1", execSync: true, queue: "q3", secret: true, waitSync: 1, onEvent: 2},
+				{name: "b2", group: 1, execSync: true, queue: "q1", waitSync: 1},
+				{name: "b3", execSync: false, queue: "q2", secret: true, waitSync: 1},
+				{name: "b4", execSync: true, queue: "q2", secret: true, waitSync: 2}}},
 		)
 		c06Classify(c, hs)
 		c.Nontrivial = true
